@@ -10,6 +10,9 @@
    [6 kind flags sid vlen]  SYN_REPLY(2)/HEADERS(8) with one header of vlen incompressible bytes; obs [VB first12 framelen]
    [7 flags n]              SETTINGS with n entries (0,4,100) then PING(7); obs [VB first12 framelen [[result offset] ..]]
                             (read back only when n <= 1100; SETTINGS results as [4 ver flags len count])
+   [8 VB wire chunks]       like 4, with the allocation verdict of the whole read: obs [over [[result offset] ..]]
+   [9 sid VB block]         like 2, with the allocation verdict of the parse call: obs [over parse-result]
+                            over = 1 iff the Go heap allocated more than 1 MB + 8 x (bytes supplied) during the call
    hdrs = [[VB name [VB value ..]] ..]     parse-result = [code hlen headers consumed maxrequest]            *)
 From Coq Require Import List ZArith Bool.
 From Bfe Require Import lib.Val lib.Bytes model.SpdyFrame.
@@ -126,6 +129,14 @@ Definition run_C39 (i : val) : val :=
   | VL [VZ 5; VZ sid; VZ fl; VZ len; VZ fill] => run_data_compact sid fl len fill
   | VL [VZ 6; VZ _; VZ _; VZ _; VZ _] => v_desync        (* depends on the real compressed size: see agree *)
   | VL [VZ 7; VZ fl; VZ n] => run_settings_compact fl n
+  (* allocation verdict: the model's parser never asks for more than one 4096-byte chunk at a time
+     (C39_alloc_bounded) and keeps only what it has received, so the verdict is always 0 *)
+  | VL [VZ 8; VB w; VL cl] =>
+    match all_some (map dec_chunk cl) with
+    | Some cs => VL [VZ 0; VL (read_stream 64 (init_state w cs))]
+    | None => VErr 0
+    end
+  | VL [VZ 9; VZ _; VB b] => VL [VZ 0; parse_plain b]
   | _ => VErr 0
   end.
 
@@ -187,6 +198,16 @@ Definition agree_C39 (i o : val) : bool :=
     | _ => false
     end
   | VL [VZ 7; _; _] => val_eqb (run_C39 i) o
+  | VL [VZ 8; _; _] =>
+    match run_C39 i, o with
+    | VL [mo; VL ml], VL [oo; VL ol] => val_eqb mo oo && list_agree true ml ol
+    | _, _ => false
+    end
+  | VL [VZ 9; _; _] =>
+    match run_C39 i, o with
+    | VL [mo; mp], VL [oo; op] => val_eqb mo oo && (is_outside mp || val_eqb mp op)
+    | _, _ => false
+    end
   | _ => false
   end.
 
@@ -336,6 +357,14 @@ Definition prop_C39 (i o : val) : bool :=
       else let second := dec32 (firstn 4 (skipn 4 h)) in
            (second / 2^24 =? fl) && (second mod 2^24 =? w - 8) && (vlen <? 2^24 - 17)
     | _, _ => false
+    end
+  | VL [VZ 8; VB w; _] =>
+    (* no allocation beyond 1 MB + 8 x wire length, and the frame boundaries as in operation 4 *)
+    match o with VL [VZ over; VL ol] => (over =? 0) && bounds_ok w 0 ol | _ => false end
+  | VL [VZ 9; _; VB b] =>
+    match o with
+    | VL [VZ over; VL [VZ _; VZ _; _; VZ _; VZ mx]] => (over =? 0) && (mx <=? 4096)
+    | _ => false
     end
   | VL [VZ 7; VZ fl; VZ n] =>
     match o with
